@@ -138,6 +138,8 @@ inductive Expr
   | block (b : Block)
   | assign (x : Nat) (e : Expr)
   | cassign (op : BinOp) (x : Nat) (e : Expr)
+  | assignF (x : Nat) (i : Nat) (e : Expr)                 -- `x.f = e`: field `i` of the record variable `x`
+  | cassignF (op : BinOp) (x : Nat) (i : Nat) (e : Expr)   -- `x.f op= e`
   | ret (e : Expr)
   | accept (e : Expr)
   | reject (e : Expr)
@@ -304,6 +306,18 @@ def arrangeFrom (cur : List Int) : List Nat → List Int → List Int
 def arrange (perm : List Nat) (xs : List Int) : List Int :=
   arrangeFrom (List.replicate xs.length 0) perm xs
 
+/-- field `i` of the record the variable `x` holds -/
+def getField (env : Env) (x i : Nat) : Option Int :=
+  match lookup env x with
+  | some (.recd fs) => fs[i]?
+  | _ => none
+
+/-- the record the variable `x` holds NOW, with field `i` replaced -/
+def setField (env : Env) (x i : Nat) (k : Int) : Option Env :=
+  match lookup env x with
+  | some (.recd fs) => if i < fs.length then update env x (.recd (fs.set i k)) else none
+  | _ => none
+
 def showInt (v : Int) : String := toString v
 
 /-- What `{e}` inside an f-string appends. -/
@@ -427,6 +441,28 @@ def evalExpr (fns : List FnDef) : Nat → Env → Expr → R (Env × Val)
           match update env x v with
           | some env => pure (env, .unit)
           | none => .stuck "assignment to unbound variable"
+    | .assignF x i e => do
+      let (env, v) ← evalExpr fns n env e
+      match v with
+      | .int k =>
+        match setField env x i k with
+        | some env => pure (env, .unit)
+        | none => .stuck "assignment to a field: target"
+      | _ => .stuck "assignment to a field: payload"
+    | .cassignF op x i e =>
+      -- the target field is read first
+      if !op.isArith then .stuck "compound assignment operator" else
+      match getField env x i with
+      | none => .stuck "compound assignment to a field: target"
+      | some a => do
+        let (env, b) ← evalExpr fns n env e
+        match binop op (.int a) b with
+        | some (.int k) =>
+          -- … and stored into the record the variable holds after the right-hand side ran
+          match setField env x i k with
+          | some env => pure (env, .unit)
+          | none => .stuck "compound assignment to a field: target"
+        | _ => .stuck "compound assignment: operand types"
     | .ret e => do
       let (_, v) ← evalExpr fns n env e
       R.early v
